@@ -718,7 +718,8 @@ func checkC12(c *Ctx) {
 		"K1 retry driver: loop condition i<retry ∨ retry<0 with i from 0 step 1; first timeout is c.timeout, doubled after and only after the internal deadline error; nil ⇒ return nil at once; any other error ⇒ returned at once; loop exit ⇒ deadline error; the try's deadline is that timeout",
 		"K2 one transmission per try: the try calls send exactly once outside the wait loop; send calls conn.WriteTo exactly once with msg.ToBytes() and dest of SendAndRead's own parameters",
 		"K3 identical bytes: between tries the message is only read (logger and ToBytes are read-only by C20; ToBytes deterministic by C07/C02)",
-		"K4 the internal deadline error is mapped to ErrNoResponse and never escapes SendAndRead")
+		"K4 the internal deadline error is mapped to ErrNoResponse and never escapes SendAndRead",
+		"K5 (shared with C10-K1/K2/K3) the transaction is registered before its datagram is written, and the receive loop is left only when reading fails: a reply arriving during any try reaches the waiting call")
 	r.NotDecided = append(r.NotDecided, "actual offsets in time (behaviour of time.After, scheduling)")
 	r.Expect("C12-clients", 2)
 	for _, short := range []string{"nclient4", "nclient6"} {
@@ -739,6 +740,10 @@ func checkC12(c *Ctx) {
 		}
 		loggerPurity(c, short, "C12-K3")
 		ctorDefaultsFirst(c, a)
+		// "a response accepted during try k ends the call" needs the reply to be routed: the transaction is registered
+		// before the datagram leaves (C10-K3) and the receive loop keeps running until the connection fails (C10-K1/K2)
+		c10Send(c, a)
+		c10RecvLoop(c, a)
 	}
 }
 
